@@ -153,6 +153,39 @@ PROPS.update({
     ),
 })
 
+PROPS.update({
+    "C08": dict(
+        level_text="Exploration over configurations x inputs by runtime monitoring: for each parseable stream the estimator's own vector and 12 (quick) / 50 (thorough) vectors re-drawn group-wise from the estimator's image are pushed through the real encode/decode path (hook); the oracle is byte equality with the original plus equality of the parameter vector as re-read.",
+        design_ref="DESIGN.md §5 C08",
+        level_note="Vectors outside the estimator's image are not generated (the property ranges over what the estimator can emit). The image description is itself checked at run time: every vector the estimator returns must be a fixed point of the described couplings.",
+        technique="runtime monitoring at a hook: identity oracle under perturbed parameter vectors (estimator image x streams)",
+        level="exploration",
+        rule="streams (<= 64 KiB plaintext) from the generator, the four compressors and the pathological shapes; per stream the "
+             "estimator's vector plus vectors in which one to four groups (hash family + min_len, add policy, chain depth, window, "
+             "block size, flags, strategy, huff strategy, no-dictionary vector, the named 4-byte-hash/first-and-last combination) "
+             "are re-drawn from the image. evaluations = (stream, vector) pairs executed. non-trivial = stream for which a "
+             "vector could be estimated or that parses, distinct by content hash",
+        assumptions=COMMON_ASSUME + ["hook verif::roundtrip_with_params performs exactly the calls decompress_deflate_stream(verify=true) performs, with the vector replaced; cross-checked against the public path with the estimator's own vector"],
+        min_evaluations=500,
+    ),
+    "C10": dict(
+        level_text="Exploration with exhaustively enumerated single-operation sequences (every correction value below 2^17 in each of the 10 contexts, every (value, width) pair for widths 1..16, every flag), plus random sequences of up to 6000 operations in six mixes and the operation sequences real analyses produce, all through the real encoder/decoder pair (hook).",
+        design_ref="DESIGN.md §5 C10",
+        level_note="Values >= 2^31 are outside the stated range and not generated.",
+        technique="runtime monitoring at a hook: encode/decode identity oracle over exhaustive single operations and random/real operation sequences",
+        level="exploration",
+        rule="single operations enumerated completely (10 x (2^17 + 5) corrections, sum over widths 1..16 of 2^w plain values, all "
+             "flags and flag/correction pairs); random sequences (40 per case) in six styles: long default runs, one context "
+             "hammered, bypass/arithmetic interleaving, flags only, everything mixed; operation sequences recorded from real "
+             "analyses. evaluations = sequences round-tripped. non-trivial = multi-operation sequence, distinct by content hash",
+        assumptions=COMMON_ASSUME + ["hook verif::cabac_roundtrip uses PredictionEncoderCabac<VP8Writer>/PredictionDecoderCabac<VP8Reader> as the library does"],
+        min_evaluations=1000,
+        exhaustive_key=("single_corrections_enumerated", {"quick": 1310770, "thorough": 1310770},
+                        {"quick": "all single-operation sequences: corrections v < 2^17 x 10 contexts, values for widths 1..16, flags",
+                         "thorough": "all single-operation sequences: corrections v < 2^17 x 10 contexts, values for widths 1..16, flags"}),
+    ),
+})
+
 
 def post_process(pid, counters, extras, run, replays):
     out = {}
@@ -160,6 +193,10 @@ def post_process(pid, counters, extras, run, replays):
         if counters.get("hook_crosscheck_failed", 0) > 0:
             out["harness_error"] = ("hook cross-check failed %d time(s): parse_and_rewrite disagrees with the "
                                     "public reconstruction path" % counters["hook_crosscheck_failed"])
+    if pid == "C08":
+        if counters.get("hook_crosscheck_failed", 0) > 0:
+            out["harness_error"] = ("hook cross-check failed %d time(s): roundtrip_with_params with the estimator's own "
+                                    "vector disagrees with the public analysis" % counters["hook_crosscheck_failed"])
     if pid == "C05":
         out["distinct_add"] = 0
     return out
